@@ -11,6 +11,8 @@
 (*                   b   IsOpen()        (only when the buffer is empty); not open: bm1 bm2 = moveTo, Len()=moveTo +   *)
 (*                       test once more (data delivered together with the close), b2 getStreamState() -> EOS / closed  *)
 (*                   --  arm the read timer when the stream has a read deadline                                        *)
+(*                   ps  in front of the select (a scheduling point of its own: events can be delivered after the      *)
+(*                       state test and before the select is evaluated)                                                *)
 (*                   sel select { recvNotifyCh (capacity 1) | closeNotifyCh | timer }                                  *)
 (*                   m1 m2   moveTo, Len()=moveTo + test      (notify arm; back to sel when still short)               *)
 (*                   c1 c2   moveTo, Len()=moveTo + test      (close arm)      c3  getStreamState() -> EOS / closed    *)
@@ -141,10 +143,10 @@ R_a2 == /\ rpc = "a2"
         /\ LET n == rbuf + pend IN
            IF n >= Need THEN Return("nil", n, 0)
            ELSE /\ rbuf' = n /\ pend' = 0 /\ UNCHANGED <<res, bad, lead>>
-                /\ IF n = 0 THEN rpc' = "b" /\ UNCHANGED <<tmr, tdl>> ELSE rpc' = "sel" /\ Arm
+                /\ IF n = 0 THEN rpc' = "b" /\ UNCHANGED <<tmr, tdl>> ELSE rpc' = "ps" /\ Arm
         /\ Keep
 R_b ==  /\ rpc = "b"
-        /\ IF st = "open" THEN rpc' = "sel" /\ Arm ELSE rpc' = "bm1" /\ UNCHANGED <<tmr, tdl>>
+        /\ IF st = "open" THEN rpc' = "ps" /\ Arm ELSE rpc' = "bm1" /\ UNCHANGED <<tmr, tdl>>
         /\ UNCHANGED <<res, pend, rbuf, bad, lead>> /\ Keep
 \* (since commit 45496fc) the stream is not open: take what arrived together with the close before reporting the end
 R_bm1 == /\ rpc = "bm1" /\ rbuf' = rbuf + pend /\ pend' = 0 /\ rpc' = "bm2"
@@ -153,9 +155,12 @@ R_bm2 == /\ rpc = "bm2"
          /\ LET n == rbuf + pend IN
             IF n >= Need THEN Return("nil", n, 0)
             ELSE /\ rbuf' = n /\ pend' = 0 /\ UNCHANGED <<res, bad, lead>>
-                 /\ IF n = 0 THEN rpc' = "b2" /\ UNCHANGED <<tmr, tdl>> ELSE rpc' = "sel" /\ Arm
+                 /\ IF n = 0 THEN rpc' = "b2" /\ UNCHANGED <<tmr, tdl>> ELSE rpc' = "ps" /\ Arm
          /\ Keep
 R_b2 == /\ rpc = "b2" /\ Return(IF st = "half" THEN "eos" ELSE "closed", rbuf, pend) /\ Keep
+\* ps: in front of the select (arrived from the tests above or from the bottom of the loop). Evaluating the select with no
+\* ready arm = the reader blocks (sel); with a ready arm the R_sel* step follows at once.
+R_enter == /\ rpc = "ps" /\ rpc' = "sel" /\ UNCHANGED <<res, pend, rbuf, tmr, tdl, bad, lead>> /\ Keep
 R_selTok == /\ rpc = "sel" /\ tok = 1 /\ tok' = 0 /\ rpc' = "m1"
             /\ UNCHANGED <<now, rd, res, pend, rbuf, cls, st, sess, tmr, tdl, dpc, dsz, arr, peerClosed, cpc, bad, lead>>
             /\ NotR
@@ -167,7 +172,7 @@ R_m1 == /\ rpc = "m1" /\ rbuf' = rbuf + pend /\ pend' = 0 /\ rpc' = "m2"
 R_m2 == /\ rpc = "m2"
         /\ LET n == rbuf + pend IN
            IF n >= Need THEN Return("nil", n, 0)
-           ELSE rbuf' = n /\ pend' = 0 /\ rpc' = "sel" /\ UNCHANGED <<res, tmr, tdl, bad, lead>>
+           ELSE rbuf' = n /\ pend' = 0 /\ rpc' = "ps" /\ UNCHANGED <<res, tmr, tdl, bad, lead>>
         /\ Keep
 R_c1 == /\ rpc = "c1" /\ rbuf' = rbuf + pend /\ pend' = 0 /\ rpc' = "c2"
         /\ UNCHANGED <<res, tmr, tdl, bad, lead>> /\ Keep
@@ -178,7 +183,7 @@ R_c2 == /\ rpc = "c2"
         /\ Keep
 R_c3 == /\ rpc = "c3" /\ Return(IF st = "half" THEN "eos" ELSE "closed", rbuf, pend) /\ Keep
 
-ReaderStep == R_a1 \/ R_a2 \/ R_b \/ R_bm1 \/ R_bm2 \/ R_b2 \/ R_selTok \/ R_selCls \/ R_selTmr \/ R_m1 \/ R_m2 \/ R_c1 \/ R_c2 \/ R_c3
+ReaderStep == R_a1 \/ R_a2 \/ R_b \/ R_bm1 \/ R_bm2 \/ R_b2 \/ R_enter \/ R_selTok \/ R_selCls \/ R_selTmr \/ R_m1 \/ R_m2 \/ R_c1 \/ R_c2 \/ R_c3
 
 RKeep == UNCHANGED <<rpc, rd, res, bad, lead>> /\ NotR
 ArrBegin(k) ==      \* the event loop enters fillDataToReadBuffer with a k-byte message (nothing shared touched yet)
@@ -216,7 +221,7 @@ TimerFire ==
   /\ UNCHANGED <<now, pend, rbuf, tok, cls, st, sess, tdl, dpc, dsz, arr, peerClosed, cpc>> /\ RKeep
 RTick == Tick /\ UNCHANGED <<pend, rbuf, tok, cls, st, sess, tmr, tdl, dpc, dsz, arr, peerClosed, cpc>> /\ RKeep
 
-ReadNext == RStart \/ R_a1 \/ R_a2 \/ R_b \/ R_bm1 \/ R_bm2 \/ R_b2 \/ R_selTok \/ R_selCls \/ R_selTmr \/ R_m1 \/ R_m2 \/ R_c1 \/ R_c2
+ReadNext == RStart \/ R_a1 \/ R_a2 \/ R_b \/ R_bm1 \/ R_bm2 \/ R_b2 \/ R_enter \/ R_selTok \/ R_selCls \/ R_selTmr \/ R_m1 \/ R_m2 \/ R_c1 \/ R_c2
             \/ R_c3 \/ (\E k \in AllChunks : ArrBegin(k)) \/ ArrAdd \/ ArrNotify \/ HalfClose \/ CloseCAS \/ CloseFin \/ SessNotify
             \/ SessLambda \/ TimerFire \/ RTick
 
@@ -235,7 +240,8 @@ ReadTypeOK == /\ tok \in {0, 1} /\ pend >= 0 /\ rbuf >= 0
 \* =============================== Mode "flush" ==============================
 FRet(r) == fpc' = "idle" /\ fres' = r /\ fdone' = TRUE
 FStart == /\ fpc = "idle" /\ ~fdone /\ ftry' = 0
-          /\ IF fst = "open" THEN fpc' = "put" /\ UNCHANGED <<fres, fdone>> ELSE FRet("closed")
+          /\ IF fst = "open" /\ fsess = "up"             \* (the session test since commit 075bc66)
+               THEN fpc' = "put" /\ UNCHANGED <<fres, fdone>> ELSE FRet("closed")
           /\ UNCHANGED <<now, qn, fst, fcls, fsess>> /\ NotF
 FAttempt == /\ fpc = "put"
             /\ IF qn < QCap THEN qn' = qn + 1 /\ FRet("nil") /\ UNCHANGED ftry
